@@ -272,6 +272,10 @@ Definition ref_read (cf : cframing) (stream : bytes) (eof : bool) : bytes * bool
   | CCloseDelim => (stream, eof, [])
   end.
 
+(* what the reference reader makes of everything the client receives after the reply head *)
+Definition client_view (cf : cframing) (whole : bool) (ps : list bytes) : bytes * bool * bytes :=
+  let '(stream, closed) := client_stream cf whole ps in ref_read cf stream closed.
+
 (* store deliveries of at most k bytes each (HTTP_REQBUF_SZ in the running proxy) *)
 Fixpoint chop_aux (fuel : nat) (k : N) (l : bytes) : list bytes :=
   match fuel with
